@@ -129,6 +129,19 @@ def one_run(case, row, conf, fakes=None, seed=0):
                 if out is None:
                     results = list(col.collocate_filesets([fa, fb], **kw))
                     got, spans = harvest(results)
+                elif conf.get("via") == "search":
+                    # Collocations.search: the documented front end (takes "your own collocator"; this one only records
+                    # the names the real generator yields, which search() itself discards)
+                    names = []
+                    class Recording(Collocator):
+                        def collocate_filesets(self, *a, **k):
+                            for name in super().collocate_filesets(*a, **k):
+                                names.append(name)
+                                yield name
+                    out.search([fa, fb], collocator=Recording(), **kw)
+                    datasets = [out.read(n) for n in sorted(set(names))]
+                    got, _ = harvest(datasets)
+                    spans = [os.path.basename(n) for n in names]
                 else:
                     names = list(col.collocate_filesets([fa, fb], output=out, **kw))
                     datasets = [out.read(n) for n in sorted(set(names))]
@@ -181,6 +194,8 @@ def configs(n, tier):
     out = []
     base = {"embedding": list(EMB)[n % 3], "T": 5, "split_a": splits[n % 4], "split_b": splits[(n // 2 + 1) % 4],
             "K": 1 + n % 3, "bundle": [None, "primary", "daily"][n % 3], "output": "memory" if n % 4 else "fileset"}
+    if base["output"] == "fileset" and n % 8 == 0:
+        base["via"] = "search"
     out.append(base)
     if tier != "quick":
         out.append(dict(base, split_a=splits[(n + 2) % 4], split_b=splits[(n + 3) % 4], K=1 + (n + 1) % 3,
@@ -203,6 +218,8 @@ def real_case(col, item):
                 continue
             col.count(1)
             judge(col, case, row, conf, res, "real-processes")
+            if conf.get("via") == "search" and res["expected"]:
+                col.bump("nontrivial_runs_through_Collocations_search")
             if res["expected"]:
                 col.nontrivial.add((json.dumps(case["P"]), json.dumps(case["S"]), json.dumps(row[:4]), json.dumps(conf, sort_keys=True)))
     # one run with an unreadable file
